@@ -2466,3 +2466,18 @@ theorem chooseCols_runner_fields {V : List Nat} {C : List Rat} {T : List Nat} {i
     rw [if_pos hp]
 
 end CTM.Election
+namespace CTM.Election
+
+/-- some valid tie order always exists (numpy returns one): the theorems'
+    hypothesis `ValidOrder` is never vacuous -/
+theorem validOrder_exists (V : List Nat) : ∃ order, ValidOrder V order := by
+  refine ⟨(List.range V.length).mergeSort (fun i j => decide (V.getD j 0 ≤ V.getD i 0)), ?_, ?_⟩
+  · exact List.mergeSort_perm _ _
+  · rw [List.pairwise_map]
+    have := List.pairwise_mergeSort (le := fun i j => decide (V.getD j 0 ≤ V.getD i 0))
+      (by intro a b c hab hbc; simp only [decide_eq_true_eq] at *; omega)
+      (by intro a b; simp only [Bool.or_eq_true, decide_eq_true_eq]; omega)
+      (List.range V.length)
+    exact this.imp (by intro a b h; simpa using h)
+
+end CTM.Election
